@@ -163,7 +163,10 @@ type loggerWriter struct {
 }
 
 func (l *loggerWriter) Write(p []byte) (int, error) {
+	// Report the length of the original slice: everything in it was
+	// consumed, and io.Writer forbids a short count with a nil error.
+	n := len(p)
 	p = bytes.TrimSpace(p)
 	l.logFunc(string(p))
-	return len(p), nil
+	return n, nil
 }
